@@ -122,8 +122,12 @@ TEXTS = {
          "recombining halves), name/tags/log fields unchanged and in order, times in whole microseconds; zig-zag and "
          "varint round-trip for every 64-bit value (top bit set included). The Thrift compact emitBatch encoder is "
          "modelled in Gallina and compared BYTE FOR BYTE with the datagrams the real reporter sends over loopback UDP on "
-         "every run; the oracle re-derives a segmentation of the batch from the code's datagrams. Datadog and "
-         "OpenTelemetry: not yet modelled (partial, see DESIGN.md).", "DESIGN.md 6/C19"),
+         "every run; the oracle re-derives a segmentation of the batch from the code's datagrams. Datadog: convert keeps "
+         "every field (low 64 bits of the trace id, property set as a map), msgpack integers and strings of every size "
+         "class read back to what was written; the real HTTP body is decoded by the Gallina reader, compared with convert "
+         "and re-encoded byte for byte. OpenTelemetry: convert is the identity on every listed field; the exported "
+         "SpanData is compared field by field. Partial: a full decode(encode) theorem for the whole Datadog body and the "
+         "third-party encoders themselves are not proved.", "DESIGN.md 6/C19"),
  "C20": ("Kernel-checked theorem for every batch and EVERY size function: try_report's loop terminates within 2n+1 "
          "iterations, every emitted batch is non-empty and below the limit, and the emitted batches are the input in "
          "order minus spans that were too large alone; a span that fits alone is never dropped. Obligation over the "
